@@ -299,7 +299,7 @@ theorem genAsVector_eq (eigh : Rows → List Rat × Rows) (c : Cls) (m3 : Aff3) 
     genAsVector eigh (.homog c (.a3 m3)) = .ok (asVectorSrc eigh m3.l) ∧
     genAsVector eigh (.homog c (.a2 m2)) = .error .notImplementedError := by
   constructor
-  · simp only [genAsVector, Tr.nDims, AffD.nDims, asVectorSrc, quatKLower, Tr.hGet, Rows.get]
+  · simp only [genAsVector, Tr.nDims, AffD.nDims, asVectorSrc, quatKLower, Tr.hGet, Tr.hRows, Rows.get]
     simp
     split <;> simp_all
   · simp [genAsVector, Tr.nDims, AffD.nDims]
